@@ -288,3 +288,108 @@ Fixpoint check_from (sha : hin -> Z) (s : state) (p : pst) (ts : tstate) (c : li
 Definition check_case (c : case) : Z * Z * Z :=
   let '(tbl, steps) := c in
   check_from (table_sha tbl) init pinit tinit steps 0 (-1) (-1) 0 false.
+
+(** ** compressed cases
+
+    The driver does not re-print what did not change: the queue and the oracle-request view are
+    given only when they differ from the previous observation, the reads only where they differ
+    (new ids included), and a value string of the expected shape is given as its numerator.
+    [expand] rebuilds the full observations; [check_ccase] is [check_case] on them.
+    [compress] is the encoder (the driver's, restated); [compressed_cases_lossless] (Props/C18.v):
+    [expand obs0 (compress obs0 l) = l] for EVERY observation sequence. *)
+Inductive vstr := VNum (x : Z) | VRaw (l : list Z).
+Definition vdecode (v : vstr) : list Z := match v with VNum x => render x | VRaw l => l end.
+
+Definition cread := option (Z * Z * vstr).
+Definition dec_read (v : cread) : oread :=
+  match v with Some (txh, h, s) => Some (txh, h, vdecode s) | None => None end.
+
+Inductive creads :=
+| CDelta (l : list (rid * cread))    (* the reads that differ from the previous observation *)
+| CFull (l : list (rid * cread)).    (* all reads *)
+
+Record cobs := mkC {
+  c_code : Z;
+  c_queue : option (list (Z * rid * request));
+  c_reads : creads;
+  c_oracle : option (list (Z * option request));
+  c_svc : list svcfact
+}.
+
+Definition apply_reads (prev : list (rid * oread)) (l : list (rid * cread)) : list (rid * oread) :=
+  fold_left (fun m e => set (fst e) (dec_read (snd e)) m) l prev.
+
+Definition expand_obs (prev : obs) (c : cobs) : obs :=
+  mkObs (c_code c)
+        (match c_queue c with Some q => q | None => o_queue prev end)
+        (match c_reads c with
+         | CDelta l => apply_reads (o_reads prev) l
+         | CFull l => map (fun e => (fst e, dec_read (snd e))) l
+         end)
+        (match c_oracle c with Some x => x | None => o_oracle prev end)
+        (c_svc c).
+
+Fixpoint expand (prev : obs) (l : list (step * cobs)) : list (step * obs) :=
+  match l with
+  | [] => []
+  | (st, c) :: rest => let o := expand_obs prev c in (st, o) :: expand o rest
+  end.
+
+Definition obs0 : obs := mkObs 0 [] [] [] [].
+
+Definition ccase := (list (hin * Z) * list (step * cobs))%type.
+
+Definition check_ccase (c : ccase) : Z * Z * Z := check_case (fst c, expand obs0 (snd c)).
+
+(** the encoder *)
+Fixpoint undig (l : list Z) (acc : Z) : Z :=
+  match l with [] => acc | ch :: l' => undig l' (10 * acc + (ch - 48)) end.
+
+(** a string that is the rendering of its own digits is sent as that number *)
+Definition enc_str (v : list Z) : vstr :=
+  let x := undig (skipn 2 v) 0 in if eqb (render x) v then VNum x else VRaw v.
+
+Definition enc_read (v : oread) : cread :=
+  match v with Some (txh, h, s) => Some (txh, h, enc_str s) | None => None end.
+
+Definition compress_obs (prev o : obs) : cobs :=
+  let delta := flat_map (fun e => if eqb (get (fst e) (o_reads prev)) (Some (snd e)) then []
+                                  else [(fst e, enc_read (snd e))]) (o_reads o) in
+  mkC (o_code o)
+      (if eqb (o_queue o) (o_queue prev) then None else Some (o_queue o))
+      (if eqb (apply_reads (o_reads prev) delta) (o_reads o) then CDelta delta
+       else CFull (map (fun e => (fst e, enc_read (snd e))) (o_reads o)))
+      (if eqb (o_oracle o) (o_oracle prev) then None else Some (o_oracle o))
+      (o_svc o).
+
+Fixpoint compress (prev : obs) (l : list (step * obs)) : list (step * cobs) :=
+  match l with
+  | [] => []
+  | (st, o) :: rest => (st, compress_obs prev o) :: compress o rest
+  end.
+
+Lemma vdecode_enc v : vdecode (enc_str v) = v.
+Proof.
+  unfold enc_str. destruct (eqb (render (undig (skipn 2 v) 0)) v) eqn:He; [|reflexivity].
+  apply (proj1 (eqb_true_iff _ _)) in He. exact He.
+Qed.
+
+Lemma dec_enc_read v : dec_read (enc_read v) = v.
+Proof. destruct v as [[[txh h] s]|]; simpl; [rewrite vdecode_enc|]; reflexivity. Qed.
+
+Lemma expand_compress_obs prev o : expand_obs prev (compress_obs prev o) = o.
+Proof.
+  destruct o as [code q rd orc svc]. unfold expand_obs, compress_obs. cbn [c_code c_queue c_reads c_oracle c_svc o_code o_queue o_reads o_oracle o_svc].
+  f_equal.
+  - destruct (eqb q (o_queue prev)) eqn:He; [apply (proj1 (eqb_true_iff _ _)) in He; congruence|reflexivity].
+  - match goal with |- context [eqb ?a rd] => destruct (eqb a rd) eqn:He end.
+    + apply (proj1 (eqb_true_iff _ _)) in He. exact He.
+    + rewrite map_map. rewrite <- (map_id rd) at 2. apply map_ext. intros [id v]. simpl. rewrite dec_enc_read. reflexivity.
+  - destruct (eqb orc (o_oracle prev)) eqn:He; [apply (proj1 (eqb_true_iff _ _)) in He; congruence|reflexivity].
+Qed.
+
+Lemma expand_compress l : forall prev, expand prev (compress prev l) = l.
+Proof.
+  induction l as [|[st o] l IH]; intros prev; simpl; [reflexivity|].
+  rewrite expand_compress_obs, IH. reflexivity.
+Qed.
